@@ -15,64 +15,47 @@ Variable dec_sem : fmt -> bool -> D -> DOCS.
 Variable dec_eof : DOCS.
 Variable dec_fails : fmt -> D -> bool.
 Variable sem : C -> Pf -> DOCS -> V.
-Variable msg : C -> Pf -> DOCS -> list str -> str -> M.
+Variable msg : C -> Pf -> DOCS -> list str -> M.
 Variable default_prefs : Pf.
 
 Notation stepM := (step parse_core parse_fails parse_err parse_msg env_toks dec_sem dec_eof dec_fails sem msg).
 Notation runM := (run parse_core parse_fails parse_err parse_msg env_toks dec_sem dec_eof dec_fails sem msg).
 Notation G_ := (G C Pf).
 
-Definition resets (fixinit : bool) (f : fmt) : Prop :=
-  fixinit = true \/ (f <> FToml /\ f <> FLua).
-
 (* ---- one lemma per field of a decoder instance ---- *)
-Lemma init_resets_finished fixinit f d : resets fixinit f -> d_finished (init fixinit f d) = false.
-Proof.
-  intros [->|[H1 H2]]; destruct f; cbn; try reflexivity; congruence.
-Qed.
+Lemma init_resets_finished f d : d_finished (init f d) = false.
+Proof. destruct f; reflexivity. Qed.
 
-Lemma init_resets_read_anything fixinit f d : resets fixinit f -> d_read_anything (init fixinit f d) = false.
-Proof.
-  intros [->|[H1 H2]]; destruct f; cbn; try reflexivity; congruence.
-Qed.
+Lemma init_resets_read_anything f d : d_read_anything (init f d) = false.
+Proof. destruct f; reflexivity. Qed.
 
 (* firstFile is never re-initialised; it is read only by the YAML decoder when EvaluateTogether *)
-Lemma first_file_read_only_by_yaml_together fixinit f together d1 d2 text :
-  d_finished d1 = d_finished d2 ->
+Lemma first_file_read_only_by_yaml_together f together d1 d2 text :
   (f = FYaml -> together = false) ->
-  snd (decode_run dec_sem dec_eof dec_fails fixinit f together d1 text) = snd (decode_run dec_sem dec_eof dec_fails fixinit f together d2 text).
+  snd (decode_run dec_sem dec_eof dec_fails f together d1 text) = snd (decode_run dec_sem dec_eof dec_fails f together d2 text).
 Proof.
-  intros Hfin Hy. unfold decode_run.
-  assert (Hi : d_finished (init fixinit f d1) = d_finished (init fixinit f d2))
-    by (destruct f, fixinit; cbn; congruence).
-  rewrite Hi. destruct (d_finished (init fixinit f d2)); [reflexivity|]. cbn [snd].
+  intros Hy. unfold decode_run. rewrite !init_resets_finished. cbn [snd].
   destruct f; try reflexivity. rewrite (Hy eq_refl). reflexivity.
 Qed.
 
 (* a re-initialised decoder decodes like a new one *)
-Lemma decode_value fixinit f together d text :
-  resets fixinit f \/ d_finished d = false ->
+Lemma decode_value f together d text :
   (f = FYaml -> together = true -> d_first_file d = true) ->
-  snd (decode_run dec_sem dec_eof dec_fails fixinit f together d text) = dec_sem f true text.
+  snd (decode_run dec_sem dec_eof dec_fails f together d text) = dec_sem f true text.
 Proof.
-  intros Hr Hy. unfold decode_run.
-  assert (Hfin : d_finished (init fixinit f d) = false).
-  { destruct Hr as [Hr|Hd]; [apply init_resets_finished; exact Hr|].
-    destruct f, fixinit; cbn; try reflexivity; exact Hd. }
-  rewrite Hfin. cbn [snd].
+  intros Hy. unfold decode_run. rewrite init_resets_finished. cbn [snd].
   destruct f; try reflexivity.
   destruct together; [|reflexivity]. rewrite (Hy eq_refl eq_refl). reflexivity.
 Qed.
 
-Lemma decode_new fixinit f together text :
-  snd (decode_run dec_sem dec_eof dec_fails fixinit f together d_new text) = dec_sem f true text.
-Proof.
-  apply decode_value; [right; reflexivity|]. intros _ _. reflexivity.
-Qed.
+Lemma decode_new f together text :
+  snd (decode_run dec_sem dec_eof dec_fails f together d_new text) = dec_sem f true text.
+Proof. apply decode_value. intros _ _. reflexivity. Qed.
 
 (* ---- the kept trees ---- *)
 Definition Inv (g : G_) : Prop :=
-  forall e t, find_tree e (g_trees g) = Some t -> t_core t = parse_core e /\ parse_fails e = false.
+  forall e t, find_tree e (g_trees g) = Some t ->
+    t_core t = parse_core e /\ t_types t = lex (env_toks e) /\ parse_fails e = false.
 
 Lemma find_store_same e (t : tree C) (l : list (N * tree C)) : find_tree e (store_tree e t l) = Some t.
 Proof.
@@ -94,122 +77,124 @@ Qed.
 Lemma inv_G0 : Inv (G0 default_prefs).
 Proof. intros e t H. discriminate. Qed.
 
-Lemma parse_trees (g : G_) e : g_trees (fst (parse parse_core env_toks g e)) = g_trees g
-  /\ g_dec (fst (parse parse_core env_toks g e)) = g_dec g
-  /\ t_core (snd (parse parse_core env_toks g e)) = parse_core e.
-Proof. unfold parse. destruct (lex (g_type g) (env_toks e)). cbn. repeat split. Qed.
-
-(* the tree a step evaluates, and the state it leaves *)
-Lemma eval_with_shape fixinit (g g1 : G_) pf x t keep :
-  Inv g1 -> g_dec g1 = g_dec g -> t_core t = parse_core (q_expr x) -> parse_fails (q_expr x) = false ->
-  fst (snd (eval_with dec_sem dec_eof dec_fails sem msg fixinit g1 pf x t keep)) =
-      sem (parse_core (q_expr x)) pf
-          (snd (decode_run dec_sem dec_eof dec_fails fixinit (q_fmt x) (q_together x)
-                  (if q_reuse_dec x then g_dec g (q_fmt x) (q_together x) else d_new) (q_text x)))
-  /\ Inv (fst (eval_with dec_sem dec_eof dec_fails sem msg fixinit g1 pf x t keep)).
+(* the output of an evaluation once the tree is there, and the state it leaves *)
+Lemma eval_with_shape (g : G_) pf x t keep :
+  Inv g -> t_core t = parse_core (q_expr x) -> t_types t = lex (env_toks (q_expr x)) -> parse_fails (q_expr x) = false ->
+  snd (eval_with dec_sem dec_eof dec_fails sem msg g pf x t keep) =
+    (let docs := snd (decode_run dec_sem dec_eof dec_fails (q_fmt x) (q_together x)
+                        (if q_reuse_dec x then g_dec g (q_fmt x) (q_together x) else d_new) (q_text x)) in
+     (sem (parse_core (q_expr x)) pf docs, msg (parse_core (q_expr x)) pf docs (lex (env_toks (q_expr x)))))
+  /\ Inv (fst (eval_with dec_sem dec_eof dec_fails sem msg g pf x t keep)).
 Proof.
-  intros HI Hd Hc Hpf. unfold eval_with. rewrite Hd.
-  destruct (decode_run dec_sem dec_eof dec_fails fixinit (q_fmt x) (q_together x)
+  intros HI Hc Ht Hpf. unfold eval_with.
+  destruct (decode_run dec_sem dec_eof dec_fails (q_fmt x) (q_together x)
               (if q_reuse_dec x then g_dec g (q_fmt x) (q_together x) else d_new) (q_text x)) as [d' docs].
-  cbn [fst snd t_core]. rewrite Hc. split; [reflexivity|].
+  cbn [fst snd t_core t_types]. rewrite Hc, Ht. split; [reflexivity|].
   intros e t1 H1. cbn [g_trees] in H1. destruct keep; [|apply HI; exact H1].
   destruct (N.eq_dec e (q_expr x)) as [->|Hne].
-  - rewrite find_store_same in H1. injection H1 as <-. cbn [t_core]. split; [first [exact Hc | reflexivity]|exact Hpf].
+  - rewrite find_store_same in H1. injection H1 as <-. cbn [t_core t_types]. repeat split; assumption.
   - rewrite find_store_other in H1 by exact Hne. apply HI. exact H1.
 Qed.
 
-Lemma step_shape fixinit (g : G_) x : Inv g ->
-  fst (snd (stepM fixinit g x)) =
-    (if parse_fails (q_expr x) then parse_err (q_expr x) else
-      sem (parse_core (q_expr x)) (match q_prefs x with Some p => p | None => g_prefs g end)
-          (snd (decode_run dec_sem dec_eof dec_fails fixinit (q_fmt x) (q_together x)
-                  (if q_reuse_dec x then g_dec g (q_fmt x) (q_together x) else d_new) (q_text x))))
-  /\ Inv (fst (stepM fixinit g x)).
+Lemma step_shape (g : G_) x : Inv g ->
+  snd (stepM g x) =
+    (if parse_fails (q_expr x) then (parse_err (q_expr x), parse_msg (q_expr x)) else
+      let pf := match q_prefs x with Some p => p | None => g_prefs g end in
+      let docs := snd (decode_run dec_sem dec_eof dec_fails (q_fmt x) (q_together x)
+                        (if q_reuse_dec x then g_dec g (q_fmt x) (q_together x) else d_new) (q_text x)) in
+      (sem (parse_core (q_expr x)) pf docs, msg (parse_core (q_expr x)) pf docs (lex (env_toks (q_expr x)))))
+  /\ Inv (fst (stepM g x)).
 Proof.
   intro HI. unfold step.
   destruct (if q_reuse_tree x then find_tree (q_expr x) (g_trees g) else None) as [t|] eqn:Ef.
-  - assert (Hc : t_core t = parse_core (q_expr x) /\ parse_fails (q_expr x) = false).
+  - assert (Hc : t_core t = parse_core (q_expr x) /\ t_types t = lex (env_toks (q_expr x)) /\ parse_fails (q_expr x) = false).
     { destruct (q_reuse_tree x); [apply HI; exact Ef|discriminate]. }
-    destruct Hc as [Hc Hpf]. rewrite Hpf.
-    apply (eval_with_shape fixinit g g _ x t true HI eq_refl Hc Hpf).
-  - destruct (parse_trees g (q_expr x)) as (P1 & P2 & P3).
-    destruct (parse parse_core env_toks g (q_expr x)) as [g' t] eqn:Ep. cbn [fst snd] in P1, P2, P3.
-    destruct (parse_fails (q_expr x)) eqn:Hpf.
+    destruct Hc as (Hc & Ht & Hpf). rewrite Hpf.
+    apply (eval_with_shape g _ x t true HI Hc Ht Hpf).
+  - destruct (parse_fails (q_expr x)) eqn:Hpf.
     + cbn [fst snd]. split; [reflexivity|]. intros e t1 H1. cbn [g_trees] in H1. apply HI. exact H1.
-    + assert (HI' : Inv g') by (intros e t1 H1; rewrite P1 in H1; apply HI; exact H1).
-      apply (eval_with_shape fixinit g g' _ x t (q_reuse_tree x) HI' P2 P3 Hpf).
+    + apply (eval_with_shape g _ x (parse parse_core env_toks (q_expr x)) (q_reuse_tree x) HI eq_refl eq_refl Hpf).
 Qed.
 
-Lemma run_inv fixinit : forall h (g : G_), Inv g -> Inv (fst (runM fixinit g h)).
+Lemma run_inv : forall h (g : G_), Inv g -> Inv (fst (runM g h)).
 Proof.
   induction h as [|x h IH]; intros g HI; cbn [run]; [exact HI|].
-  destruct (step_shape fixinit g x HI) as (_ & HI1).
-  destruct (stepM fixinit g x) as [g1 o]. cbn [fst] in HI1.
-  specialize (IH g1 HI1). destruct (runM fixinit g1 h) as [g2 os]. exact IH.
+  destruct (step_shape g x HI) as (_ & HI1).
+  destruct (stepM g x) as [g1 o]. cbn [fst] in HI1.
+  specialize (IH g1 HI1). destruct (runM g1 h) as [g2 os]. exact IH.
 Qed.
 
-(* a request whose value cannot depend on what happened before *)
-Definition ok_req (fixinit : bool) (x : request Pf D) : Prop :=
-  q_prefs x <> None /\
-  (q_reuse_dec x = false \/ (resets fixinit (q_fmt x) /\ (q_fmt x = FYaml -> q_together x = false))).
+(* a request whose output cannot depend on what happened before: it configures
+   its preferences (as cmd does) and does not re-use a YAML decoder that was
+   built for eval-all *)
+Definition ok_req (x : request Pf D) : Prop :=
+  q_prefs x <> None /\ (q_reuse_dec x = false \/ (q_fmt x = FYaml -> q_together x = false)).
 
-Lemma step_value fixinit (g : G_) x : Inv g -> ok_req fixinit x ->
-  fst (snd (stepM fixinit g x)) = spec_value parse_core parse_fails parse_err dec_sem sem default_prefs x.
+Definition spec_out (x : request Pf D) : V * M :=
+  (spec_value parse_core parse_fails parse_err dec_sem sem default_prefs x,
+   spec_msg parse_core parse_fails parse_msg env_toks dec_sem msg default_prefs x).
+
+Lemma step_out (g : G_) x : Inv g -> ok_req x -> snd (stepM g x) = spec_out x.
 Proof.
   intros HI [Hp Hd].
-  destruct (step_shape fixinit g x HI) as (Hv & _). rewrite Hv.
-  unfold spec_value. destruct (parse_fails (q_expr x)); [reflexivity|].
-  destruct (q_prefs x) as [p|]; [|congruence]. f_equal.
-  destruct Hd as [Hd|[Hr Hy]].
-  - rewrite Hd. apply decode_new.
-  - destruct (q_reuse_dec x); [|apply decode_new].
-    apply decode_value; [left; exact Hr|]. intros Hf Ht. rewrite (Hy Hf) in Ht. discriminate.
+  destruct (step_shape g x HI) as (Hv & _). rewrite Hv.
+  unfold spec_out, spec_value, spec_msg. destruct (parse_fails (q_expr x)); [reflexivity|].
+  destruct (q_prefs x) as [p|]; [|congruence]. cbv zeta.
+  assert (Hdocs : snd (decode_run dec_sem dec_eof dec_fails (q_fmt x) (q_together x)
+                         (if q_reuse_dec x then g_dec g (q_fmt x) (q_together x) else d_new) (q_text x))
+                  = dec_sem (q_fmt x) true (q_text x)).
+  { destruct Hd as [Hd|Hy].
+    - rewrite Hd. apply decode_new.
+    - destruct (q_reuse_dec x); [|apply decode_new].
+      apply decode_value. intros Hf Ht. rewrite (Hy Hf) in Ht. discriminate. }
+  rewrite Hdocs. reflexivity.
 Qed.
 
-Lemma history_independent fixinit h1 h2 x : ok_req fixinit x ->
-  fst (last_out parse_core parse_fails parse_err parse_msg env_toks dec_sem dec_eof dec_fails sem msg default_prefs fixinit h1 x)
-  = fst (last_out parse_core parse_fails parse_err parse_msg env_toks dec_sem dec_eof dec_fails sem msg default_prefs fixinit h2 x).
+Lemma history_independent h1 h2 x : ok_req x ->
+  last_out parse_core parse_fails parse_err parse_msg env_toks dec_sem dec_eof dec_fails sem msg default_prefs h1 x
+  = last_out parse_core parse_fails parse_err parse_msg env_toks dec_sem dec_eof dec_fails sem msg default_prefs h2 x.
 Proof.
   intro Hok. unfold last_out.
-  rewrite (step_value fixinit _ x (run_inv fixinit h1 _ inv_G0) Hok).
-  rewrite (step_value fixinit _ x (run_inv fixinit h2 _ inv_G0) Hok). reflexivity.
+  rewrite (step_out _ x (run_inv h1 _ inv_G0) Hok).
+  rewrite (step_out _ x (run_inv h2 _ inv_G0) Hok). reflexivity.
 Qed.
 
-Lemma fresh_is_spec fixinit x : q_reuse_dec x = false \/ True ->
-  fst (last_out parse_core parse_fails parse_err parse_msg env_toks dec_sem dec_eof dec_fails sem msg default_prefs fixinit [] x)
-  = spec_value parse_core parse_fails parse_err dec_sem sem default_prefs x.
+Lemma fresh_is_spec x :
+  last_out parse_core parse_fails parse_err parse_msg env_toks dec_sem dec_eof dec_fails sem msg default_prefs [] x = spec_out x.
 Proof.
-  intros _. unfold last_out. cbn [run fst].
-  destruct (step_shape fixinit (G0 default_prefs) x inv_G0) as (Hv & _). rewrite Hv.
-  unfold spec_value. destruct (parse_fails (q_expr x)); [reflexivity|]. cbn [g_prefs G0 g_dec]. f_equal.
-  destruct (q_reuse_dec x); apply decode_new.
+  unfold last_out. cbn [run fst].
+  destruct (step_shape (G0 default_prefs) x inv_G0) as (Hv & _). rewrite Hv.
+  unfold spec_out, spec_value, spec_msg. destruct (parse_fails (q_expr x)); [reflexivity|]. cbn [g_prefs G0 g_dec]. cbv zeta.
+  assert (Hdocs : snd (decode_run dec_sem dec_eof dec_fails (q_fmt x) (q_together x)
+                         (if q_reuse_dec x then d_new else d_new) (q_text x)) = dec_sem (q_fmt x) true (q_text x))
+    by (destruct (q_reuse_dec x); apply decode_new).
+  rewrite Hdocs. reflexivity.
 Qed.
 
 (* evaluating on a kept tree = evaluating on a fresh parse *)
 Definition with_reuse (b : bool) (x : request Pf D) : request Pf D :=
   mkReq (q_expr x) b (q_fmt x) (q_text x) (q_together x) (q_reuse_dec x) (q_prefs x) (q_xml_lead x).
 
-Lemma reuse_tree fixinit (g : G_) x : Inv g ->
-  fst (snd (stepM fixinit g (with_reuse true x))) = fst (snd (stepM fixinit g (with_reuse false x))).
+Lemma reuse_tree (g : G_) x : Inv g ->
+  snd (stepM g (with_reuse true x)) = snd (stepM g (with_reuse false x)).
 Proof.
   intro HI.
-  destruct (step_shape fixinit g (with_reuse true x) HI) as (Hv1 & _).
-  destruct (step_shape fixinit g (with_reuse false x) HI) as (Hv2 & _).
+  destruct (step_shape g (with_reuse true x) HI) as (Hv1 & _).
+  destruct (step_shape g (with_reuse false x) HI) as (Hv2 & _).
   rewrite Hv1, Hv2. reflexivity.
 Qed.
 
-(* the fields a step writes that no value ever reads: envsubstOpType.Type, xmlEncoder.leadingContent,
-   the sort RHS slot and the Type copies of a kept tree *)
+(* the fields a step writes that no output ever reads: xmlEncoder.leadingContent
+   and the RHS slot sortOperator writes in a kept tree *)
 Definition same_but_unread (g1 g2 : G_) : Prop :=
-  g_dec g1 = g_dec g2 /\ g_prefs g1 = g_prefs g2 /\
-  (forall e, option_map t_core (find_tree e (g_trees g1)) = option_map t_core (find_tree e (g_trees g2))).
+  g_dec g1 = g_dec g2 /\ g_prefs g1 = g_prefs g2.
 
-Lemma unread_fields fixinit (g1 g2 : G_) x : Inv g1 -> Inv g2 -> same_but_unread g1 g2 ->
-  fst (snd (stepM fixinit g1 x)) = fst (snd (stepM fixinit g2 x)).
+Lemma unread_fields (g1 g2 : G_) x : Inv g1 -> Inv g2 -> same_but_unread g1 g2 ->
+  snd (stepM g1 x) = snd (stepM g2 x).
 Proof.
-  intros H1 H2 (Hd & Hp & _).
-  destruct (step_shape fixinit g1 x H1) as (Hv1 & _).
-  destruct (step_shape fixinit g2 x H2) as (Hv2 & _).
+  intros H1 H2 (Hd & Hp).
+  destruct (step_shape g1 x H1) as (Hv1 & _).
+  destruct (step_shape g2 x H2) as (Hv2 & _).
   rewrite Hv1, Hv2, Hd, Hp. reflexivity.
 Qed.
 
@@ -219,149 +204,34 @@ End HistoryFacts.
 (* interleavings                                                        *)
 (* ------------------------------------------------------------------ *)
 Section Interleave.
-Variable D : Type.
+Variable Pf : Type.
 
-Definition touches (f : lfmt) (a : action D) : bool :=
-  match a with ALoadInit f' _ | ALoadDecode f' => lfmt_eqb f' f | _ => false end.
+Lemma act_shared (s : Pf) p a : fst (act s p a) = s.
+Proof. destruct a; reflexivity. Qed.
 
-Definition uses (l : list (action D)) (f : lfmt) : bool := existsb (touches f) l.
-
-Definition agree (F : lfmt -> bool) (s s' : shared D) : Prop :=
-  forall f, F f = true -> sh_load s f = sh_load s' f.
-
-Lemma lfmt_eqb_eq a b : lfmt_eqb a b = true <-> a = b.
-Proof. destruct a, b; cbn; split; intro H; try reflexivity; try discriminate. Qed.
-
-Lemma uses_cons (a : action D) l f : uses (a :: l) f = touches f a || uses l f.
-Proof. reflexivity. Qed.
-
-(* one step of the evaluation itself on two shared states that agree on its load decoders *)
-Lemma act_agree (a : action D) l s s' p p' :
-  agree (uses (a :: l)) s s' -> p_loaded p = p_loaded p' ->
-  agree (uses l) (fst (act s p a)) (fst (act s' p' a))
-  /\ p_loaded (snd (act s p a)) = p_loaded (snd (act s' p' a)).
+Lemma acts_shared : forall (l : list action) (s : Pf) p, fst (acts s p l) = s.
 Proof.
-  intros Ha Hp. destruct a; cbn [act fst snd p_loaded sh_load].
-  - split; [|exact Hp]. intros f Hf. apply Ha. rewrite uses_cons, Hf. apply orb_true_r.
-  - split; [|exact Hp]. intros f Hf. apply Ha. rewrite uses_cons, Hf. apply orb_true_r.
-  - split; [|exact Hp]. intros f Hf. apply Ha. rewrite uses_cons, Hf. apply orb_true_r.
-  - split; [|exact Hp]. intros f' Hf. cbn [sh_load]. destruct (lfmt_eqb f' f); [reflexivity|].
-    apply Ha. rewrite uses_cons, Hf. apply orb_true_r.
-  - split.
-    + intros f' Hf. apply Ha. rewrite uses_cons, Hf. apply orb_true_r.
-    + rewrite Hp. f_equal. f_equal. apply Ha. rewrite uses_cons. cbn [touches].
-      assert (H : lfmt_eqb f f = true) by (apply lfmt_eqb_eq; reflexivity). rewrite H. reflexivity.
-  - split; [|exact Hp]. intros f Hf. apply Ha. rewrite uses_cons, Hf. apply orb_true_r.
+  induction l as [|a l IH]; intros s p; cbn [acts]; [reflexivity|].
+  pose proof (act_shared s p a) as H. destruct (act s p a) as [s1 p1]. cbn [fst] in H. subst s1. apply IH.
 Qed.
 
-Lemma acts_agree : forall (l : list (action D)) s s' p p',
-  agree (uses l) s s' -> p_loaded p = p_loaded p' ->
-  p_loaded (snd (acts s p l)) = p_loaded (snd (acts s' p' l)).
+(* whatever the schedule, each evaluation ends with the private state it reaches alone *)
+Lemma interleave_both : forall sch (la lb : list action) (s : Pf) pa pb,
+  snd (fst (interleave sch s pa pb la lb)) = snd (acts s pa la)
+  /\ snd (interleave sch s pa pb la lb) = snd (acts s pb lb).
 Proof.
-  induction l as [|a l IH]; intros s s' p p' Ha Hp; cbn [acts]; [exact Hp|].
-  destruct (act_agree a l s s' p p' Ha Hp) as [H1 H2].
-  destruct (act s p a) as [s1 p1], (act s' p' a) as [s1' p1']. cbn [fst snd] in *.
-  apply IH; assumption.
-Qed.
-
-(* a step of the OTHER evaluation that does not touch our load decoders keeps the agreement *)
-Lemma other_act_agree (F : lfmt -> bool) (b : action D) s s' q :
-  (forall f, F f = true -> touches f b = false) ->
-  agree F s s' -> agree F (fst (act s q b)) s'.
-Proof.
-  intros Hb Ha. destruct b; cbn [act fst sh_load]; try exact Ha.
-  intros f' Hf. specialize (Hb f' Hf). cbn [touches] in Hb.
-  assert (He : lfmt_eqb f' f = false).
-  { destruct (lfmt_eqb f' f) eqn:E; [|reflexivity]. apply lfmt_eqb_eq in E. subst f'.
-    assert (H : lfmt_eqb f f = true) by (apply lfmt_eqb_eq; reflexivity). congruence. }
-  cbn [sh_load]. rewrite He. apply Ha. exact Hf.
-Qed.
-
-Definition disjoint_load (la lb : list (action D)) : Prop :=
-  forall f, uses la f = true -> uses lb f = false.
-
-Lemma uses_cons_false (b : action D) lb f : uses (b :: lb) f = false -> touches f b = false /\ uses lb f = false.
-Proof. rewrite uses_cons. intro H. apply orb_false_iff in H. exact H. Qed.
-
-Lemma acts_other_agree (F : lfmt -> bool) : forall (lb : list (action D)) s s' q,
-  (forall f, F f = true -> uses lb f = false) -> agree F s s' -> agree F (fst (acts s q lb)) s'.
-Proof.
-  induction lb as [|b lb IH]; intros s s' q Hd Ha; cbn [acts]; [exact Ha|].
-  assert (Hb : forall f, F f = true -> touches f b = false) by (intros f Hf; apply (uses_cons_false b lb f (Hd f Hf))).
-  assert (Hl : forall f, F f = true -> uses lb f = false) by (intros f Hf; apply (uses_cons_false b lb f (Hd f Hf))).
-  pose proof (other_act_agree F b s s' q Hb Ha) as H1.
-  destruct (act s q b) as [s1 q1]. cbn [fst] in H1. apply IH; assumption.
-Qed.
-
-(* first evaluation: whatever the schedule, its load operators decode what they decode alone *)
-Lemma interleave_first : forall sch (la lb : list (action D)) s s' pa pa' pb,
-  disjoint_load la lb -> agree (uses la) s s' -> p_loaded pa = p_loaded pa' ->
-  p_loaded (snd (fst (interleave sch s pa pb la lb))) = p_loaded (snd (acts s' pa' la)).
-Proof.
-  induction sch as [|c sch IH]; intros la lb s s' pa pa' pb Hd Ha Hp.
+  induction sch as [|c sch IH]; intros la lb s pa pb.
   - cbn [interleave].
-    destruct (acts s pa la) as [s1 pa1] eqn:E1.
-    destruct (acts s1 pb lb) as [s2 pb1]. cbn [fst snd].
-    pose proof (acts_agree la s s' pa pa' Ha Hp) as H. rewrite E1 in H. exact H.
+    pose proof (acts_shared la s pa) as H1.
+    destruct (acts s pa la) as [s1 pa1]. cbn [fst] in H1. subst s1.
+    destruct (acts s pb lb) as [s2 pb1]. cbn [fst snd]. split; reflexivity.
   - destruct c; cbn [interleave].
-    + destruct la as [|a la'].
-      * apply IH; assumption.
-      * destruct (act_agree a la' s s' pa pa' Ha Hp) as [H1 H2].
-        cbn [acts].
-        destruct (act s pa a) as [s1 pa1], (act s' pa' a) as [s1' pa1']. cbn [fst snd] in *.
-        apply IH; try assumption.
-        intros f Hf. apply Hd. rewrite uses_cons, Hf. apply orb_true_r.
-    + destruct lb as [|b lb'].
-      * apply IH; assumption.
-      * assert (Hb : forall f, uses la f = true -> touches f b = false)
-          by (intros f Hf; apply (uses_cons_false b lb' f (Hd f Hf))).
-        pose proof (other_act_agree (uses la) b s s' pb Hb Ha) as H1.
-        destruct (act s pb b) as [s1 pb1]. cbn [fst] in H1.
-        apply IH; try assumption.
-        intros f Hf. apply (uses_cons_false b lb' f (Hd f Hf)).
-Qed.
-
-(* second evaluation, same statement *)
-Lemma interleave_second : forall sch (la lb : list (action D)) s s' pa pb pb',
-  disjoint_load lb la -> agree (uses lb) s s' -> p_loaded pb = p_loaded pb' ->
-  p_loaded (snd (interleave sch s pa pb la lb)) = p_loaded (snd (acts s' pb' lb)).
-Proof.
-  induction sch as [|c sch IH]; intros la lb s s' pa pb pb' Hd Ha Hp.
-  - cbn [interleave].
-    destruct (acts s pa la) as [s1 pa1] eqn:E1.
-    assert (Ha1 : agree (uses lb) s1 s').
-    { pose proof (acts_other_agree (uses lb) la s s' pa Hd Ha) as H. rewrite E1 in H. exact H. }
-    pose proof (acts_agree lb s1 s' pb pb' Ha1 Hp) as H.
-    destruct (acts s1 pb lb) as [s2 pb1]. cbn [fst snd] in *. exact H.
-  - destruct c; cbn [interleave].
-    + destruct la as [|a la'].
-      * apply IH; assumption.
-      * assert (Hb : forall f, uses lb f = true -> touches f a = false)
-          by (intros f Hf; apply (uses_cons_false a la' f (Hd f Hf))).
-        pose proof (other_act_agree (uses lb) a s s' pa Hb Ha) as H1.
-        destruct (act s pa a) as [s1 pa1]. cbn [fst] in H1.
-        apply IH; try assumption.
-        intros f Hf. apply (uses_cons_false a la' f (Hd f Hf)).
-    + destruct lb as [|b lb'].
-      * apply IH; assumption.
-      * destruct (act_agree b lb' s s' pb pb' Ha Hp) as [H1 H2].
-        cbn [acts].
-        destruct (act s pb b) as [s1 pb1], (act s' pb' b) as [s1' pb1']. cbn [fst snd] in *.
-        apply IH; try assumption.
-        intros f Hf. apply Hd. rewrite uses_cons, Hf. apply orb_true_r.
-Qed.
-
-Lemma agree_refl F (s : shared D) : agree F s s.
-Proof. intros f _. reflexivity. Qed.
-
-Lemma interleave_both sch (la lb : list (action D)) s pa pb :
-  disjoint_load la lb -> disjoint_load lb la ->
-  p_loaded (snd (fst (interleave sch s pa pb la lb))) = p_loaded (snd (acts s pa la))
-  /\ p_loaded (snd (interleave sch s pa pb la lb)) = p_loaded (snd (acts s pb lb)).
-Proof.
-  intros H1 H2. split.
-  - apply interleave_first; [exact H1|apply agree_refl|reflexivity].
-  - apply interleave_second; [exact H2|apply agree_refl|reflexivity].
+    + destruct la as [|a la']; [apply IH|].
+      cbn [acts]. pose proof (act_shared s pa a) as H1.
+      destruct (act s pa a) as [s1 pa1]. cbn [fst] in H1. subst s1. apply IH.
+    + destruct lb as [|b lb']; [apply IH|].
+      cbn [acts]. pose proof (act_shared s pb b) as H1.
+      destruct (act s pb b) as [s1 pb1]. cbn [fst] in H1. subst s1. apply IH.
 Qed.
 
 End Interleave.
